@@ -296,6 +296,17 @@ pub fn generate(thorough: bool, r: &mut Rng, em: &mut Emit) {
         let nt = [&x, &y].iter().any(|l| matches!(l, L::Named(s) if s.len() >= 2));
         em.case_nt("c15.label", &[x.sx(), y.sx()], nt);
     }
+    // text values / types that mix named, numeric and positional fields: a positional field continues from the id OF THE NAME
+    // before it (the model of the grammar action numbers it from the hash)
+    for _ in 0..300 * scale {
+        let n = r.range(2, 5);
+        let ls: Vec<String> = (0..n).map(|_| match r.below(6) {
+            0 | 1 => format!("(named {})", sx::hex(gen_name(r).as_bytes())),
+            2 => format!("(id {})", r.below(1000)),
+            _ => "(unnamed)".to_string() }).collect();
+        em.stat("value.named-then-positional");
+        em.case_nt("c13.record_ids", &[format!("({})", ls.join(" "))], true);
+    }
     for _ in 0..600 * scale {
         let ls = gen_labels(r, em);
         let nt = ls.iter().any(|l| matches!(l, L::Named(s) if s.len() >= 2));
